@@ -144,6 +144,42 @@ mod vk_foreach {
     #[kani::unwind(6)]
     fn foreach_iter_fold() { run_foreach_iter(2, 2); }
 
+    // index arithmetic of enumerate_for_each / for_each / fold at the upper end of the position domain: the range 0..usize::MAX, all but
+    // the last <= 3 positions already taken by others (scripted counter: the first reservation returns a position near the end, every
+    // later one a position past it).  Indices stay exact and nothing overflows, in both builds.
+    struct Script(std::cell::UnsafeCell<(usize, usize)>);   // (calls so far, position the first reservation returns)
+    unsafe impl Sync for Script {}
+    static SCRIPT: Script = Script(std::cell::UnsafeCell::new((0, 0)));
+    fn tail_faa(_a: &crate::iter::atomic_counter::AtomicCounter, _val: usize) -> usize { let s = unsafe { &mut *SCRIPT.0.get() }; s.0 += 1; if s.0 == 1 { s.1 } else { usize::MAX } }
+    fn tail_inc(a: &crate::iter::atomic_counter::AtomicCounter) -> usize { tail_faa(a, 1) }
+    // @harness name=foreach_range_tail group=default,nodebug props_nodebug=C17 props=C16,C12,C02,C17 kind=bounded bound="range 0..usize::MAX; first reservation at any of the last 3 positions; chunk size in 1..=3"
+    #[kani::proof]
+    #[kani::unwind(7)]
+    #[kani::stub(crate::iter::atomic_counter::AtomicCounter::fetch_and_add, tail_faa)]
+    #[kani::stub(crate::iter::atomic_counter::AtomicCounter::fetch_and_increment, tail_inc)]
+    fn foreach_range_tail() {
+        let len = usize::MAX;
+        let it = ConIterOfRange::new(0..len);
+        let b0: usize = kani::any();
+        kani::assume(b0 >= len - 3 && b0 < len);
+        unsafe { *SCRIPT.0.get() = (0, b0); }
+        let chunk: usize = kani::any();
+        kani::assume(chunk >= 1 && chunk <= 3);
+        let which: u8 = kani::any();
+        kani::assume(which < 3);
+        let mut cnt = 0usize;
+        if which == 0 {
+            it.enumerate_for_each(chunk, |i, v| { assert!(i == v && i == b0 + cnt && i < len, "[C16 C12 C02 tail-index] enumerate_for_each passes exact indices up to the last position usize::MAX - 1"); cnt += 1; });
+        } else if which == 1 {
+            it.for_each(chunk, |v| { assert!(v == b0 + cnt && v < len, "[C16 C12 tail-value] for_each passes the elements of its reservation up to the last position"); cnt += 1; });
+        } else {
+            cnt = it.fold(chunk, 0usize, |k, v| { assert!(v == b0 + k && v < len, "[C16 C12 tail-value] fold consumes the elements of its reservation up to the last position"); k + 1 });
+        }
+        kani::cover!(which == 0 && chunk == 3 && b0 == len - 2, "a chunk that is cut at the last position");
+        let want = if chunk < len - b0 { chunk } else { len - b0 };
+        assert!(cnt == want, "[C16 C12 tail-count] exactly the positions of the reservation that exist are visited");
+    }
+
     // documented panics for chunk size zero (C16): #[kani::should_panic] harnesses -- each passes iff the call panics
     // @harness name=chunk_zero_panics_for_each group=default,nodebug props_nodebug=C17 props=C16,C12 kind=complete expect=panic
     #[kani::proof]
